@@ -60,6 +60,13 @@ type scribbleSink struct{}
 
 func (scribbleSink) ReportMdnsEntries(entries map[string]*api.MdnsEntry, newEntries bool) {
 	for k, e := range entries {
+		// in place first (the hub sorts the address list of an entry it dials in place), then the fields themselves
+		for i := range e.Addresses {
+			e.Addresses[i] = net.ParseIP("203.0.113.99")
+		}
+		for i := range e.Categories {
+			e.Categories[i] = 99
+		}
 		e.Addresses = []net.IP{}
 		e.Ski = "scribbled"
 		e.Host = "scribbled"
